@@ -58,6 +58,36 @@ class FailingFactory(pz.CollectFactory):
         return io_
 
 
+_disk_gate = {"root": None}
+
+
+def _audit(event, args):
+    """Gate for disk extraction: a worker thread about to create/open something under the destination
+    parks here (the audit hook runs in the thread doing the operation, before the system call)."""
+    root = _disk_gate["root"]
+    if root is None or sched._active is None:
+        return
+    try:
+        if event == "open":
+            p = args[0]
+            if isinstance(p, (str, bytes, os.PathLike)):
+                p = os.fsdecode(p)
+                if p.startswith(root):
+                    sched.gate("open:" + os.path.relpath(p, root))
+        elif event in ("os.mkdir", "os.symlink"):
+            p = os.fsdecode(args[0] if event == "os.mkdir" else args[1])
+            if p.startswith(root):
+                sched.gate(event[3:] + ":" + os.path.relpath(p, root))
+    except Exception:
+        pass
+
+
+def worker_init():
+    import sys
+
+    sys.addaudithook(_audit)
+
+
 def cases(rng, tier):
     out = []
     n = 24 if tier == "quick" else 300
@@ -155,6 +185,41 @@ def run_case(case):
                     obs["exhausted_trees"] = obs.get("exhausted_trees", 0) + 1
                 else:
                     prefix = nxt
+        # ---- controlled schedules for DISK extraction (gates at the audit events open/mkdir under the destination)
+        seqdir0 = os.path.join(d, "seq0")
+        with py7zr.SevenZipFile(io.BytesIO(data)) as z:
+            z.extractall(seqdir0)
+        seqtree0 = {p_: r_.get("crc") for p_, r_ in pz.walk_tree(seqdir0).items()}
+        disk_traces = set()
+        for run in range(max(6, case["max_schedules"] // 6)):
+            out = os.path.join(d, "sd%d" % run)
+            s = sched.Sched(rng=random.Random(rng.getrandbits(32)))
+            _disk_gate["root"] = out
+            sched.install(s)
+            err = None
+            try:
+                with WK.inner_budget(20.0):
+                    with py7zr.SevenZipFile(path, "r") as z:
+                        z.extractall(out)
+            except WK.CpuBudget:
+                sched.uninstall()
+                _disk_gate["root"] = None
+                raise
+            except Exception as e:
+                err = e
+            finally:
+                sched.uninstall()
+                _disk_gate["root"] = None
+            obs["controlled_disk_schedules"] = obs.get("controlled_disk_schedules", 0) + 1
+            disk_traces.add(tuple(c for c, _, _ in s.trace))
+            if err is not None:
+                viol.append({"key": "parallel-disk-raises/%s" % type(err).__name__, "what": "intact archive, scheduled disk extraction raised %s" % pz.exc_sig(err)})
+                break
+            tree = {p_: r_.get("crc") for p_, r_ in pz.walk_tree(out).items()}
+            if tree != seqtree0:
+                viol.append({"key": "disk-output-depends-on-schedule", "what": "scheduled disk extraction (trace %r) differs from the sequential tree" % (list(disk_traces)[-1][:30],)})
+                break
+        obs["distinct_disk_interleavings"] = len(disk_traces)
         obs["distinct_interleavings"] = len(traces)
         alternating = sum(1 for t in traces if len(set(t)) >= 2 and any(a != b for a, b in zip(t, t[1:])))
         obs["alternating_interleavings"] = alternating
